@@ -164,7 +164,7 @@ def replay(path):
             print("written names:", inp.get("target"), inp.get("deps"))
             print("make reads   :", [r for r in rules if not r.startswith("Mf:") and not r.startswith(".DEFAULT")])
             h = text.encode().hex() or "-"
-            print("model reads  :", common.run_model(["dep parse " + h]))
+            print("model reads  :", common.run_model(["c17 dep parse " + h]))
         finally:
             shutil.rmtree(work, ignore_errors=True)
     case = inp.get("case") if isinstance(inp, dict) else None
